@@ -354,6 +354,34 @@ def eemRecords (acc : List (EemKey × Mut)) (l : List (String × Mut)) : EemKey 
 def eemRecordsPinned (acc : List (EemKey × Mut)) (l : List (String × Mut)) : EemKey → Option Mut :=
   fun id => get (eemLoopPinned acc l) id
 
+/-- key of the per-site map of `countEEMSiteBranch`: `"%d-%d-%c-%c"` (site, branch, parent, child) -/
+def eemSiteKey (m : Mut) : String :=
+  toString m.site ++ "-" ++ toString m.branch ++ "-" ++ m.parent.toString ++ "-" ++ m.child.toString
+
+/- `mutations.countEEMSiteBranch` for one site on the rose tree: the mutation of the nearest changed branch
+   above is carried down (`curMutation`) and entered in the per-site map at every tip below it
+   (`mutations.Mutations[id] = *curMutation`: one entry per key). -/
+mutual
+def eemNode (charOf : String → Char) (site : Nat) (prevChar : Option Char) (edgeId : Int) (curMut : Option Mut)
+    (acc : List (String × Mut)) : T → List (String × Mut)
+  | .node d _ kids =>
+    let cur := charOf d.name
+    let cm := match prevChar with
+      | some p => if p != cur then some ⟨site, edgeId.toNat, d.name, p, cur, 0, 0, 1⟩ else curMut
+      | none => curMut
+    if kids.isEmpty then (match cm with | some m => put acc (eemSiteKey m) m | none => acc)
+    else eemKids charOf site cur cm acc kids
+def eemKids (charOf : String → Char) (site : Nat) (cur : Char) (cm : Option Mut)
+    (acc : List (String × Mut)) : Kids → List (String × Mut)
+  | [] => acc
+  | (e, t) :: r => eemKids charOf site cur cm (eemNode charOf site (some cur) e.id cm acc t) r
+end
+
+/-- `CountEEMs`: for every site, the per-site map (listed by `ord`, Go's iteration order) merged into the result -/
+def countEEMs (charOfAt : Nat → String → Char) (ord : List (String × Mut) → List (String × Mut)) (nsites : Nat) (t : T) :
+    List (EemKey × Mut) :=
+  (List.range nsites).foldl (fun acc j => eemLoop acc (ord (eemNode (charOfAt j) j none 0 none [] t))) []
+
 /-- what `gotree compute mutations --eems` prints of the pinned loop: per (site, parent, child) the
     number of emergences (this much was order-independent already before bf532dd) -/
 def eemCountsPinned (acc : List (EemKey × Mut)) (l : List (String × Mut)) : EemKey → Option Nat :=
@@ -366,6 +394,11 @@ def effectiveSeed (seedFlag : Int) (clockNanos : Int) : Int :=
   if seedFlag == -1 then clockNanos else seedFlag
 
 /-! ## excluded packages (reviewed, DESIGN §3.7) -/
+
+/-- draw/pngtreedrawer.go `initFonts`: `for name, ttf := range TTFs { fontCache.Store(name, parse(ttf)) }`, then the
+    cache is only looked up (`Load`) -/
+def fontCacheLoad (l : List (String × String)) (name : String) : Option String :=
+  get (l.foldl (fun fc e => put fc e.1 e.2) []) name
 
 /-- download/ncbitax.go `writeMapfile`: lines written while ranging -/
 def ncbiMapLines (l : List (String × String)) : List String :=
